@@ -22,6 +22,41 @@ def sh(cmd, timeout=600, **kw):
     return subprocess.run(cmd, capture_output=True, text=True, timeout=timeout, **kw)
 
 
+def run_limited(cmd, timeout=60, mem_gb=4, cpu_s=None, **kw):
+    """subprocess.run for anything that executes the compiler under test or code it produced: own
+    process group (the driver's cc1 child dies with it), address-space and CPU rlimits, so a
+    non-terminating or memory-eating mutant cannot take the machine down.  Returns a
+    CompletedProcess; on timeout returncode is -999."""
+    import resource
+
+    def pre():
+        os.setsid()
+        resource.setrlimit(resource.RLIMIT_AS, (int(mem_gb * (1 << 30)),) * 2)
+        c = int(cpu_s or timeout + 5)
+        resource.setrlimit(resource.RLIMIT_CPU, (c, c + 1))
+        resource.setrlimit(resource.RLIMIT_CORE, (0, 0))
+    kw.setdefault("capture_output", True)
+    kw.setdefault("text", True)
+    if kw.get("capture_output"):
+        kw.pop("capture_output")
+        kw["stdout"] = subprocess.PIPE
+        kw["stderr"] = subprocess.PIPE
+    inp = kw.pop("input", None)
+    if inp is not None:
+        kw["stdin"] = subprocess.PIPE
+    p = subprocess.Popen(cmd, preexec_fn=pre, **kw)
+    try:
+        out, err = p.communicate(inp, timeout=timeout)
+        return subprocess.CompletedProcess(cmd, p.returncode, out, err)
+    except subprocess.TimeoutExpired:
+        try:
+            os.killpg(p.pid, signal.SIGKILL)
+        except ProcessLookupError:
+            pass
+        out, err = p.communicate()
+        return subprocess.CompletedProcess(cmd, -999, out, err)
+
+
 class TLCResult:
     def __init__(self, rc, out, wall):
         self.rc, self.out, self.wall = rc, out, wall
